@@ -236,9 +236,18 @@ def _case(draw):
             Xq.append(list(Xl[draw(st.integers(0, n_lab - 1))]))
         else:
             Xq.append(draw(st.lists(coord, min_size=d, max_size=d)))
-    return dict(component=clfreg.label(cfg), cfg=cfg, labels=labels,
+    case = dict(component=clfreg.label(cfg), cfg=cfg, labels=labels,
                 n_annotators=A, Xl=Xl, yl=yl, wl=wl, UA=UA, UB=UB,
                 variant=variant, Xq=Xq, hidden=hidden)
+    if comp == "ALR" and weighted and draw(st.booleans()):
+        # a missing ENTRY of a partially labeled row is an unlabeled sample
+        # of that annotator: its weight is irrelevant as well (side B gets
+        # other weights exactly at the missing entries)
+        wl_b = [[(draw(any_weight) if yl[i][j] < 0 else wl[i][j])
+                 for j in range(A)] for i in range(n_lab)]
+        if wl_b != wl:
+            case["wl_B"] = wl_b
+    return case
 
 
 def case_strategy(tier, shard=0, nshards=1):
@@ -246,7 +255,7 @@ def case_strategy(tier, shard=0, nshards=1):
 
 
 # ------------------------------------------------------------------ oracle --
-def _assemble(case, U):
+def _assemble(case, U, side="A"):
     """Interleave the labeled rows (fixed order) with the unlabeled entries
     U (entry u is placed before labeled row u['pos'], list order kept).
     Returns X, y (index coded / real with None), w."""
@@ -264,7 +273,9 @@ def _assemble(case, U):
         if p < n_lab:
             X.append(list(case["Xl"][p]))
             y.append(case["yl"][p])
-            w.append(None if case["wl"] is None else case["wl"][p])
+            wl = (case.get("wl_B") if side == "B" and case.get("wl_B")
+                  else case["wl"])
+            w.append(None if wl is None else wl[p])
     if case["wl"] is None:
         w = None
     return X, y, w
@@ -347,13 +358,15 @@ def run_case(case):
            f"unlabeled_B={min(nB, 2)}{'+' if nB >= 2 else ''}"]
     if case["labels"] is not None:
         lab.append(f"classes={'str' if isinstance(case['labels'][0], str) else 'arange' if clfreg.is_arange(case['labels']) else 'ints'}")
+    if case.get("wl_B"):
+        lab.append("missing_entry_reweighted")
     viol = []
     sides = {}
     for name, U in (("A", case["UA"]), ("B", case["UB"])):
         for u in U:
             if not 0 <= u["pos"] <= n_lab:
                 raise HarnessError("unlabeled position out of range")
-        X, y, w = _assemble(case, U)
+        X, y, w = _assemble(case, U, name)
         hid = None
         if name == "A" and case.get("hidden"):
             is_clf = case["labels"] is not None
@@ -375,13 +388,15 @@ def run_case(case):
             viol.append(exc_violation(comp, r, trig, f"side {name}"))
         else:
             sides[name] = r
-    nontrivial = (nA + nB) >= 1 and n_lab >= 2
+    nontrivial = ((nA + nB) >= 1 or bool(case.get("wl_B"))) and n_lab >= 2
     if viol or len(sides) < 2:
         return Outcome(viol, nontrivial and not viol, lab)
 
     a, b = sides["A"], sides["B"]
     tol = ALR_TOL if kind == "AnnotatorLogisticRegression" else DIFF
     trig = f"weights={weighted}&variant={case['variant']}"
+    if case.get("wl_B"):
+        trig += "&missing_entry_reweighted"
     for key in ("proba", "freq", "mean", "std"):
         if key in a and not arr_close(a[key], b[key], **tol):
             viol.append(Violation(
